@@ -28,6 +28,7 @@ from odl.operator.operator import Operator
 from .. import core, cover, registry, sanitize, util
 
 SHARDS = {'quick': 4, 'thorough': 16}
+THOROUGH_ROUNDS = 4
 S = odl.solvers
 
 
@@ -433,5 +434,5 @@ def run(ctx):
         allc = registry.library_classes()
         ctx.note('library_operator_classes', len(allc))
         ctx.note('library_class_list', allc)
-    if ctx.thorough and ctx.shard == 0:
+    if ctx.thorough and ctx.shard == 0 and ctx.round == 0:
         run_ambient(ctx)
